@@ -42,6 +42,9 @@ def backend_program(backend, seed, idx, avoid_known=True, size="small", extra_pr
     rng = random.Random("tool/%s/%s/%s/%s" % (backend if size == "small" else "any", seed, idx, salt))
     g = spec.Gen(rng, profile=prof, name="p%d" % idx, **kw)
     prog = g.program()
+    for t in prog.types():
+        if t.kind == "opaque" and rng.random() < 0.3:
+            t.decl = "enum"          # #[diplomat::opaque] enum: same FFI surface as an opaque struct
     if avoid_known:
         friendly_attrs(prog)
     emit_rust.assign_abi_names(prog)
